@@ -158,6 +158,13 @@ func TestC02Sweep(t *testing.T) {
 			cases = append(cases, statCase{Test: "longest", Flag: ones, Seq: gen.Seq{Family: "markov", N: n, Seed: uint64(400 + i), F: 0.6}})
 		}
 	}
+	// many blocks, block counts that are not multiples of 2, 4 or 8; lengths just above 2^20 and in the millions
+	for j, n := range []int{131200, 262021, 1048577, 2000001, 10250001} {
+		for _, ones := range []bool{true, false} {
+			cases = append(cases, statCase{Test: "longest", Flag: ones, Seq: gen.Seq{Family: "uniform", N: n, Seed: uint64(500 + j)}})
+		}
+		cases = append(cases, statCase{Test: "runs", Seq: gen.Seq{Family: "uniform", N: n, Seed: uint64(510 + j)}}, statCase{Test: "runsDist", Seq: gen.Seq{Family: "uniform", N: n, Seed: uint64(520 + j)}})
+	}
 	for _, n := range []int{1, 2, 3, 100, 101} {
 		for _, fam := range []string{"constant", "alternating", "uniform"} {
 			cases = append(cases, statCase{Test: "runs", Seq: gen.Seq{Family: fam, N: n, Seed: 5}})
